@@ -11,7 +11,9 @@ mod gen;
 mod ops;
 mod util;
 mod ops2;
+mod ops3;
 mod gen2;
+mod gen3;
 
 use std::io::{BufRead, Write};
 
